@@ -69,6 +69,20 @@ def stateAfter : St → List Op → St
   | st, [] => st
   | st, op :: ops => stateAfter (step st op).1 ops
 
+/-! ### the shared client's blocking path (mux.go blocking / blockingMulti)
+
+`wire := pool.Acquire(ctx); resp = wire.Do(ctx, cmd); if resp.NonRedisError() != nil { wire.Close() };
+pool.Store(wire)`: a command that returned early for ANY non-Redis reason — also a cancelled context
+on a perfectly healthy pipe — may still be pending on the connection, so the wire is closed and the
+pool discards it instead of handing it to the next Dedicate(). -/
+
+/-- `early`: the command returned a non-Redis error (context cancelled / deadline, transport error) -/
+def blockingCalls (early : Bool) : List Call :=
+  [.wDo] ++ (if early then [.wClose] else []) ++ [.poolStore] ++ (if early then [.poolDiscard] else [])
+
+/-- does the wire stay in the pool (available to the next Acquire) after the call -/
+def blockingKeepsWire (early : Bool) : Bool := !(blockingCalls early).contains .poolDiscard
+
 /-! ### the cluster client's dedicated client (cluster.go dedicatedClusterClient)
 
 The wire is acquired lazily by the first command (`acquire`), hooks set before that are kept pending
